@@ -846,14 +846,26 @@ func famSesUpg(t *testing.T, r *Rec) {
 				}
 			}
 		}
-		_ = probed
+		if probed && candAlive && !upgraded {
+			// the client polls again while the candidate is still probing: the next check tick releases this poll too
+			lines = append(lines, "ses poll s0", "ses adv 100")
+			nreq++
+		}
 		lines = append(lines, "ses send s0 t 6d32 0 0 -")
 		lines = append(lines, "ses obs")
 		mid := len(lines) - 1
+		idleAt := -1
 		if !upgraded {
 			if candAlive {
 				lines = append(lines, "ses drop 0")
 			}
+			// the attempt is over: a poll with nothing to deliver stays pending (no timer of the attempt is left ticking)
+			if !(pollPending && !probed) {
+				lines = append(lines, "ses poll s0") // m2 was buffered: this poll fetches it
+			}
+			lines = append(lines, "ses poll s0", "ses adv 350")
+			idleAt = len(lines) - 1
+			lines = append(lines, "ses send s0 t 6d3278 0 0 -")
 			// the session must still be usable on polling and accept a fresh candidate that follows the protocol
 			lines = append(lines, "ses poll s0", "ses post s0 t 1 346331", "ses ws s0 4 0", "ses frame 1 t 3270726f6265", "ses adv 100", "ses poll s0", "ses frame 1 t 35")
 		}
@@ -866,6 +878,9 @@ func famSesUpg(t *testing.T, r *Rec) {
 		name := strings.Join(script, ",")
 		r.Cover(fmt.Sprintf("upg/%s/poll=%s", name, b01(pollPending)))
 		sig := func(cl string) string { return fmt.Sprintf("C08/%s/script=%s", cl, name) }
+		if lastBubbleLeak != "" {
+			r.Violate("C09", "C09/goroutine-left-behind/upgrade-attempt/script="+name, "after the candidate's frames, with every connection closed and 40 s of silence, goroutines of the server are still there (a timer of the attempt was never cancelled)", lines)
+		}
 		// collect
 		var clientMsgs, serverMsgs []string
 		upgradeEvents, upgradingEvents, pongs := 0, 0, 0
@@ -942,8 +957,19 @@ func famSesUpg(t *testing.T, r *Rec) {
 		if pongs < expectPong {
 			r.Violate("C08", sig("probe-unanswered"), fmt.Sprintf("%d probe pings, %d probe pongs", expectPong, pongs), lines)
 		}
-		if strings.Join(clientMsgs, ",") != "m1,m2,m3" {
-			r.Violate("C08", sig("messages-to-client"), fmt.Sprintf("client received %v across the upgrade, want m1,m2,m3", clientMsgs), lines)
+		if idleAt >= 0 {
+			o := parseObs(outs[idleAt])
+			if o.pend == "-" || len(o.resps) > 0 {
+				r.Violate("C08", sig("idle-poll-answered-after-failed-attempt"), "after the attempt was over an idle poll was answered although nothing was sent: "+outs[idleAt], lines[:idleAt+1])
+				r.Violate("C09", "C09/busy-poll-after-upgrade-attempt/script="+name, "after an abandoned upgrade attempt an idle poll is answered at once (a timer of the attempt keeps ticking): "+outs[idleAt], lines[:idleAt+1])
+			}
+		}
+		wantClient := "m1,m2,m3"
+		if idleAt >= 0 {
+			wantClient = "m1,m2,m2x,m3"
+		}
+		if strings.Join(clientMsgs, ",") != wantClient {
+			r.Violate("C08", sig("messages-to-client"), fmt.Sprintf("client received %v across the upgrade, want %s", clientMsgs, wantClient), lines)
 		}
 		wantSrv := "c2"
 		if !upgraded {
@@ -1099,64 +1125,71 @@ func famSesResp(t *testing.T, r *Rec) {
 	for _, thr := range []string{"-", "16", "100000"} {
 		for ai, ae := range aes {
 			for _, compressFlag := range []bool{true, false} {
-				size := []int{4, 40, 400}[(ai+len(thr))%3]
+				size := []int{4, 40, 400, 2000}[(ai+len(thr))%4]
 				msg := append([]byte("m"), bytes_repeat('a'+byte(ai%20), size)...)
-				lines := []string{fmt.Sprintf("ses cfg 25000 20000 1000 100000 default 1 0 - 0 %s", thr), "ses hs polling 4 0 -",
-					fmt.Sprintf("ses send s0 t %s %s 0 -", hx(msg), b01(compressFlag)),
-					fmt.Sprintf("ses poll s0 %s", hx([]byte(ae)))}
-				if ae == "-" {
-					lines[3] = "ses poll s0"
+				// two cycles on the same session, each with its own Accept-Encoding: the coding of a
+				// response is negotiated from the request it answers, not from an earlier one
+				ae2 := aes[(ai+5)%len(aes)]
+				pollLine := func(a string) string {
+					if a == "-" {
+						return "ses poll s0"
+					}
+					return fmt.Sprintf("ses poll s0 %s", hx([]byte(a)))
 				}
+				lines := []string{fmt.Sprintf("ses cfg 25000 20000 1000 100000 default 1 0 - 0 %s", thr), "ses hs polling 4 0 -",
+					fmt.Sprintf("ses send s0 t %s %s 0 -", hx(msg), b01(compressFlag)), pollLine(ae),
+					fmt.Sprintf("ses send s0 t %s %s 0 -", hx(msg), b01(compressFlag)), pollLine(ae2)}
 				outs := sesRun(t, lines)
 				r.scenarios++
 				for i, l := range lines {
 					r.Op(l, outs[i])
 				}
-				o := parseObs(outs[3])
 				r.Cover(fmt.Sprintf("resp/thr=%s/ae=%s/compress=%s/size=%d", thr, strings.ReplaceAll(ae, " ", ""), b01(compressFlag), size))
-				if len(o.resps) != 1 {
-					continue
-				}
-				rs := o.resps[0]
-				ce := strings.SplitN(rs.ce, "!", 2)
-				replay := lines
-				if len(ce) > 1 && strings.HasPrefix(ce[1], "undecodable") {
-					r.Violate("C16", "C16/content-encoding/"+ce[0]+"/body-is-not-that-coding", "the body does not decode under the Content-Encoding the response names ("+ce[0]+")", replay)
-					continue
-				}
-				if len(ce) > 1 {
-					r.Violate("C16", "C16/content-length", "Content-Length differs from the bytes sent: "+ce[1], replay)
-				}
-				if want := hx(append([]byte("4"), msg...)); rs.body != want {
-					r.Violate("C16", "C16/payload", "the (decoded) body is not the payload of the batch", replay)
-				}
-				if rs.ct != "text" {
-					r.Violate("C16", "C16/content-type", "text payload served as "+rs.ct, replay)
-				}
-				thrN := 1024
-				if thr != "-" {
-					thrN = atoi(thr)
-				}
-				may := compressFlag && len(msg)+1 >= thrN
-				names := acceptNames(strings.ReplaceAll(ae, "-", ""))
-				if ae == "-" {
-					names = map[string]bool{}
-				}
-				if ce[0] != "-" {
-					if !may {
-						r.Violate("C16", "C16/compressed-without-cause", fmt.Sprintf("compressed although flag=%v size=%d threshold=%d", compressFlag, len(msg)+1, thrN), replay)
+				for _, round := range []struct {
+					idx int
+					ae  string
+				}{{3, ae}, {5, ae2}} {
+					ae := round.ae
+					o := parseObs(outs[round.idx])
+					if len(o.resps) != 1 {
+						continue
 					}
-					if !acceptNames(ae)[ce[0]] {
-						r.Violate("C16", "C16/coding-not-named-by-accept-encoding/"+ce[0], fmt.Sprintf("Content-Encoding %s although Accept-Encoding is %q", ce[0], ae), replay)
+					rs := o.resps[0]
+					ce := strings.SplitN(rs.ce, "!", 2)
+					replay := lines[:round.idx+1]
+					if len(ce) > 1 && strings.HasPrefix(ce[1], "undecodable") {
+						r.Violate("C16", "C16/content-encoding/"+ce[0]+"/body-is-not-that-coding", "the body does not decode under the Content-Encoding the response names ("+ce[0]+")", replay)
+						continue
+					}
+					if len(ce) > 1 {
+						r.Violate("C16", "C16/content-length", "Content-Length differs from the bytes sent: "+ce[1], replay)
+					}
+					if want := hx(append([]byte("4"), msg...)); rs.body != want {
+						r.Violate("C16", "C16/payload", "the (decoded) body is not the payload of the batch", replay)
+					}
+					if rs.ct != "text" {
+						r.Violate("C16", "C16/content-type", "text payload served as "+rs.ct, replay)
+					}
+					thrN := 1024
+					if thr != "-" {
+						thrN = atoi(thr)
+					}
+					may := compressFlag && len(msg)+1 >= thrN
+					if ce[0] != "-" {
+						if !may {
+							r.Violate("C16", "C16/compressed-without-cause", fmt.Sprintf("compressed although flag=%v size=%d threshold=%d", compressFlag, len(msg)+1, thrN), replay)
+						}
+						if ae == "-" || !acceptNames(ae)[ce[0]] {
+							r.Violate("C16", "C16/coding-not-named-by-accept-encoding/"+ce[0], fmt.Sprintf("Content-Encoding %s although the request's Accept-Encoding is %q", ce[0], ae), replay)
+						}
 					}
 				}
-				_ = names
 			}
 		}
 	}
 	// JSONP: wrapper shape, digits of j, script-safe literal, round trip of newlines
-	js := []string{"0", "12", "7);alert(1);//", "1e3", "-5", "４２", "", "abc", "9]=1;x[0", "3"}
-	payloads := []string{"plain", "quote\"s", "new\nline", "back\\nslash", "</script><script>alert(1)</script>", "amp&<>", "u2028:  u2029: ", "\x00\x1f", "é😀", "backslash\\\nnewline"}
+	js := []string{"0", "12", "7);alert(1);//", "1e3", "-5", "４２", "", "abc", "9]=1;x[0", "3", "5", "6"}
+	payloads := []string{"plain", "quote\"s", "new\nline", "back\\nslash", "</script><script>alert(1)</script>", "amp&<>", "u2028:  u2029: ", "\x00\x1f", "é😀", "backslash\\\nnewline", "ring\x07ring\x7f", "tag\U000E0001end\U000F0000"}
 	for ji, j := range js {
 		pl := payloads[ji%len(payloads)]
 		lines := []string{"ses cfg 25000 20000 1000 100000 default 1 0 - 0 -", "ses hs polling 4 0 " + strOr(hx([]byte(j)), "e"),
@@ -1190,6 +1223,9 @@ func famSesResp(t *testing.T, r *Rec) {
 				var decoded string
 				if err := jsonUnmarshal([]byte(lit), &decoded); err != nil {
 					r.Violate("C16", "C16/jsonp/literal", "the argument is not one JSON string literal: "+lit, lines[:idx+1])
+					if idx == 3 {
+						r.Violate("C01", "C01/jsonp/literal", fmt.Sprintf("a JSONP client cannot read the literal carrying the message %q: %s", pl, lit), lines[:idx+1])
+					}
 					continue
 				}
 				for _, bad := range []string{"<", ">", "&", " ", " ", "\n"} {
@@ -1199,6 +1235,7 @@ func famSesResp(t *testing.T, r *Rec) {
 				}
 				if idx == 3 && decoded != "4"+pl {
 					r.Violate("C16", "C16/jsonp/payload", fmt.Sprintf("JSONP literal decodes to %q, want %q", decoded, "4"+pl), lines[:idx+1])
+					r.Violate("C01", "C01/jsonp/payload", fmt.Sprintf("a JSONP client received %q for the message %q", decoded, pl), lines[:idx+1])
 				}
 			}
 		}
